@@ -38,6 +38,8 @@ def method_chain(expr):
 
 def check(ctx):
     repo = ctx.repo
+    from . import generic as _gen
+    _gen.language_traps(ctx, _gen.anchor_functions(repo, "C05"), "the property holds for every input, on every call")
     for r, t in (("TS-other", "right-hand frame reduced to non-missing unique keys before the key->row dict is built"),
                  ("IDX", "whole rows, own columns unchanged, one index pair"),
                  ("SIB-5", "NA value and NA dtype come from the same column"),
